@@ -804,15 +804,31 @@ func init() {
 		}
 		b.WriteString("]\n\n")
 		var swaps []string
-		for _, rel := range []string{"bfe_modules/mod_geo", "bfe_modules/mod_block", "bfe_modules/mod_redirect", "bfe_modules/mod_rewrite"} {
-			l, err := swapFacts(repo, rel)
+		// every module directory of the tree (the list is read from the source, not kept here)
+		mods, err := os.ReadDir(filepath.Join(repo, "bfe_modules"))
+		if err != nil {
+			return "", err
+		}
+		for _, m := range mods {
+			if !m.IsDir() || !strings.HasPrefix(m.Name(), "mod_") {
+				continue
+			}
+			l, err := swapFacts(repo, "bfe_modules/"+m.Name())
 			if err != nil {
 				return "", err
 			}
-			if len(l) == 0 {
-				return "", fmt.Errorf("%s: no data swap under a lock found", rel)
-			}
 			swaps = append(swaps, l...)
+		}
+		for _, must := range []string{"mod_geo:ModuleGeo.loadConfData", "mod_block:ProductRuleTable.Update"} {
+			found := false
+			for _, l := range swaps {
+				if strings.Contains(l, must) {
+					found = true
+				}
+			}
+			if !found {
+				return "", fmt.Errorf("bfe_modules: data swap %s not found", must)
+			}
 		}
 		b.WriteString("/-- module data reloads: every method that replaces a field of its receiver under a mutex:\n    (package:function, it calls a method on / passes on the value it replaced) -/\n")
 		b.WriteString("def moduleSwaps : List (String × Bool) := [\n" + strings.Join(swaps, ",\n") + "\n]\n")
